@@ -373,6 +373,7 @@ def minimise(zy: ZygoteSet, seed_: int, run: int, violation: dict, options: dict
     refs = References(zy)
     sig = violation["sig"]
     workload = copy.deepcopy(violation["workload"])
+    original = copy.deepcopy(violation["workload"])
 
     def fails(w) -> bool:
         try:
@@ -417,6 +418,12 @@ def minimise(zy: ZygoteSet, seed_: int, run: int, violation: dict, options: dict
         shrunk = True
     out = execute(zy, refs, run, workload, tag="-confirm")
     match = [v for v in out["violations"] if v["sig"] == sig]
+    if not match and shrunk:
+        # fragile violations (e.g. ones that depend on address reuse) may not survive shrinking:
+        # fall back to the run as it was generated
+        workload, shrunk = original, False
+        out = execute(zy, refs, run, workload, tag="-confirm")
+        match = [v for v in out["violations"] if v["sig"] == sig]
     if not match:
         return None
     payload = {"workload": workload, "violation": match[0], "shrunk": shrunk,
